@@ -246,7 +246,7 @@ Proof. vm_compute. reflexivity. Qed.
 (*   quota_run_ok o steps p x s   quota_sum_ok in every epoch of the run                           *)
 (*   GInv C p e R NR         the registry invariant of C03 (props/C03.v)                           *)
 (* ============================================================================================ *)
-From NeatModel Require Import Mutate Dup Registry PopWF EpochTotalDefs EpochTotalQuota EpochTotal.
+From NeatModel Require Import Mutate Dup Registry PopWF EpochTotalDefs EpochTotalQuota EpochTotalSurv EpochTotal.
 
 Notation innovs := Genome.innovs.
 
@@ -324,6 +324,14 @@ Theorem C02_epoch_succeeds : forall C o gen p x s R NR,
 Proof. exact epoch_succeeds. Qed.
 Print Assumptions C02_epoch_succeeds.
 
+(* the hypothesis survivors_ok (at least the champion of a species survives: floor(SurvivalThresh*n+1) >= 1
+   for every n >= 1) holds for every SurvivalThresh in [0, 1]; "finite and not negative" would not be
+   enough: for SurvivalThresh = 2^1023 the product overflows and Go's int(+Inf) is modelled as 0 *)
+Theorem C02_survivors_ok_sufficient : forall o,
+  PrimFloat.leb 0 (o_survival o) = true -> PrimFloat.leb (o_survival o) 1 = true -> survivors_ok o.
+Proof. exact survivors_ok_unit. Qed.
+Print Assumptions C02_survivors_ok_sufficient.
+
 (* NewPopulation from a well-formed start genome succeeds or runs out of tape *)
 Theorem C02_spawn_succeeds : forall o g s,
   wf g -> 0 < o_pop_size o -> PrimFloat.eqb (o_compat_thresh o) 0 = false ->
@@ -367,7 +375,8 @@ Qed.
 
 Example C02_example_succeeds_hypotheses :
   wf ex_genome /\ innovs (s_env ex_s0) = [] /\ tape_ok (s_tape ex_s0) /\
-  0 < o_pop_size ex_opts < 2 ^ 31 /\ acts_ok ex_opts /\ PrimFloat.eqb (o_compat_thresh ex_opts) 0 = false /\
+  0 < o_pop_size ex_opts < 2 ^ 31 /\ acts_ok ex_opts /\ survivors_ok ex_opts /\
+  PrimFloat.eqb (o_compat_thresh ex_opts) 0 = false /\
   exists p s, new_population ex_opts ex_genome ex_s0 = Ok (p, s) /\
               quota_run_ok ex_opts [(ex_fit, 1); (ex_fit, 2); (ex_fit, 3)] p ex_x0 s.
 Proof.
@@ -375,6 +384,7 @@ Proof.
   split; [apply tape_okb_ok; vm_compute; reflexivity|].
   split; [vm_compute; split; reflexivity|].
   split; [vm_compute; repeat split; reflexivity|].
+  split; [apply C02_survivors_ok_sufficient; vm_compute; reflexivity|].
   split; [vm_compute; reflexivity|].
   destruct (is_ok_pair (new_population ex_opts ex_genome ex_s0)) as (p & s & E); [vm_compute; reflexivity|].
   exists p, s. split; [exact E|]. apply quota_run_okb_ok.
@@ -383,4 +393,127 @@ Proof.
               | _ => false
               end = true) by (vm_compute; reflexivity).
   rewrite E in H. exact H.
+Qed.
+
+(* ============================================================================================ *)
+(* agent-quota: Hsum ([quota_sum_ok]) — refuted for subnormal fitness values, proved for all       *)
+(* ordinary ones (proofs/QuotaFloatSum.v, QuotaFloatSumA.v, QuotaFloatSumB.v)                      *)
+(* ============================================================================================ *)
+From NeatModel Require QuotaFloatSum QuotaFloatSumB.
+
+(* Recorded finding `subnormal-fitness-quota-overshoot` (known_findings.txt, C02): Hsum does NOT
+   follow from "fitness finite and not negative".  NewPopulation with PopSize 4 (one species), the
+   evaluator assigns the raw fitness values (8,4,4,4) x 2^-1074: every hypothesis of
+   C02_epoch_succeeds other than Hsum holds, all fitness values are finite and positive, Hsum fails
+   (shared values (2,1,1,1) units, average 5/4 units rounded to 1 unit, expected offspring total
+   5 > 4), and NextEpoch returns error 74, "progeny size after reproduction cycle dimished,
+   expected: [4], but got: [5]".  (C02_full above carries the quota total as a hypothesis of its
+   own, so this input does not contradict C02_full; it shows that Hsum cannot be dropped from
+   C02_epoch_succeeds / C02_history_succeeds without a hypothesis on the fitness values.) *)
+Theorem C02_epoch_fails_subnormal :
+  exists C o gen p x s R NR,
+    Part p /\ Fresh p /\ zlen (p_orgs p) = o_pop_size o /\ 0 < o_pop_size o < 2 ^ 31 /\
+    GInv C p (s_env s) R NR /\ records_traits_ok (s_env s) (zlen (c_tshape C)) /\
+    acts_ok o /\ survivors_ok o /\ PrimFloat.eqb (o_compat_thresh o) 0 = false /\
+    exps_nonneg (p_heap p) /\ tape_ok (s_tape s) /\
+    (forall k y, In k (p_orgs p) -> hget (p_heap p) k = Ok y ->
+                 PrimFloat.leb 0%float (o_fit y) = true /\ PrimFloat.ltb (o_fit y) infinity = true) /\
+    ~ quota_sum_ok o p /\
+    next_epoch o gen p x s = GoErr 74.
+Proof. exact QuotaFloatSum.quota_sum_subnormal_refuted. Qed.
+Print Assumptions C02_epoch_fails_subnormal.
+
+(* the same as a run: every hypothesis of C02_history_succeeds other than quota_run_ok holds, the one
+   fitness assignment consists of finite positive numbers, and the run fails with error 74 *)
+Theorem C02_history_fails_subnormal :
+  exists o g s0 steps x p s,
+    wf g /\ innovs (s_env s0) = [] /\ tape_ok (s_tape s0) /\
+    0 < o_pop_size o < 2 ^ 31 /\ acts_ok o /\ survivors_ok o /\ PrimFloat.eqb (o_compat_thresh o) 0 = false /\
+    new_population o g s0 = Ok (p, s) /\
+    Forall (fun st => Forall (fun f => PrimFloat.ltb 0%float f = true /\ PrimFloat.ltb f infinity = true) (fst st)) steps /\
+    PopInv.run_epochs o steps p x s = GoErr 74.
+Proof. exact QuotaFloatSum.history_subnormal_fails. Qed.
+Print Assumptions C02_history_fails_subnormal.
+
+(* Hsum from the RAW fitness values (Organism.Fitness as the evaluator left it, before
+   Species.adjustFitness).  For every population satisfying the book-keeping invariant with PopSize
+   organisms: if there are at most 2^20 organisms, AgeSignificance lies in [2^-32, 2^32], every raw
+   fitness value f is finite with 0 <= f <= 2^900 and at least one is >= 2^-900 (this excludes the
+   finding above), then the floor-and-carry total of the offspring chain does not exceed PopSize.
+   Through adjustFitness (x0.01 stagnation penalty, x AgeSignificance youth boost, division by the
+   species size: the shared values stay in [0, 2^1000] and one stays >= 2^-1000), then the binary64
+   error analysis of proofs/QuotaFloatSumA.v (Flocq): T <= n + 2^-10 < n + 1. *)
+Theorem C02_quota_sum_ok_from_fitness : forall o p,
+  Part p -> zlen (p_orgs p) = o_pop_size o ->
+  zlen (p_orgs p) <= 2 ^ 20 ->
+  PrimFloat.leb 0x1p-32%float (o_age_sig o) = true /\ PrimFloat.leb (o_age_sig o) 0x1p+32%float = true ->
+  (forall k y, In k (p_orgs p) -> hget (p_heap p) k = Ok y ->
+               PrimFloat.leb 0%float (o_fit y) = true /\ PrimFloat.leb (o_fit y) 0x1p+900%float = true) ->
+  (exists k y, In k (p_orgs p) /\ hget (p_heap p) k = Ok y /\ PrimFloat.leb 0x1p-900%float (o_fit y) = true) ->
+  quota_sum_ok o p.
+Proof.
+  intros o p HP Hsz Hn Hsig Hall Hex.
+  exact (QuotaFloatSumB.quota_sum_ok_from_fitness o p HP Hsz (conj Hn (conj Hsig (conj Hall Hex)))).
+Qed.
+Print Assumptions C02_quota_sum_ok_from_fitness.
+
+(* one epoch without Hsum: C02_epoch_succeeds with the hypothesis on the fitness values instead *)
+Theorem C02_epoch_succeeds_from_fitness : forall C o gen p x s R NR,
+  Part p -> Fresh p -> zlen (p_orgs p) = o_pop_size o -> 0 < o_pop_size o < 2 ^ 31 ->
+  GInv C p (s_env s) R NR -> records_traits_ok (s_env s) (zlen (c_tshape C)) ->
+  acts_ok o -> survivors_ok o -> PrimFloat.eqb (o_compat_thresh o) 0 = false ->
+  exps_nonneg (p_heap p) ->
+  (zlen (p_orgs p) <= 2 ^ 20 /\
+   (PrimFloat.leb 0x1p-32%float (o_age_sig o) = true /\ PrimFloat.leb (o_age_sig o) 0x1p+32%float = true) /\
+   (forall k y, In k (p_orgs p) -> hget (p_heap p) k = Ok y ->
+                PrimFloat.leb 0%float (o_fit y) = true /\ PrimFloat.leb (o_fit y) 0x1p+900%float = true) /\
+   (exists k y, In k (p_orgs p) /\ hget (p_heap p) k = Ok y /\ PrimFloat.leb 0x1p-900%float (o_fit y) = true)) ->
+  tape_ok (s_tape s) ->
+  (exists r, next_epoch o gen p x s = Ok r) \/ next_epoch o gen p x s = OutOfTape.
+Proof. exact QuotaFloatSumB.epoch_succeeds_from_fitness. Qed.
+Print Assumptions C02_epoch_succeeds_from_fitness.
+
+(* whole runs without quota_run_ok: a population spawned from a well-formed start genome on a tape of
+   genuine draws, 0 < PopSize <= 2^20, AgeSignificance in [2^-32, 2^32], then any number of rounds in
+   each of which the evaluator assigns one fitness value per organism, every value finite with
+   0 <= f <= 2^900 and at least one >= 2^-900: every NextEpoch succeeds or the tape runs out.  No
+   float-level hypothesis is left; what remains are the hypotheses on the options. *)
+Theorem C02_history_succeeds_from_fitness : forall o g s0 steps x p s,
+  wf g -> innovs (s_env s0) = [] -> tape_ok (s_tape s0) ->
+  0 < o_pop_size o <= 2 ^ 20 ->
+  PrimFloat.leb 0x1p-32%float (o_age_sig o) = true /\ PrimFloat.leb (o_age_sig o) 0x1p+32%float = true ->
+  acts_ok o -> survivors_ok o -> PrimFloat.eqb (o_compat_thresh o) 0 = false ->
+  new_population o g s0 = Ok (p, s) ->
+  Forall (fun st => Z.of_nat (length (fst st)) = o_pop_size o /\
+                    Forall (fun f => PrimFloat.leb 0%float f = true /\ PrimFloat.leb f 0x1p+900%float = true) (fst st) /\
+                    Exists (fun f => PrimFloat.leb 0x1p-900%float f = true) (fst st)) steps ->
+  (exists r, PopInv.run_epochs o steps p x s = Ok r) \/ PopInv.run_epochs o steps p x s = OutOfTape.
+Proof. exact QuotaFloatSumB.history_succeeds_from_fitness. Qed.
+Print Assumptions C02_history_succeeds_from_fitness.
+
+(* non-vacuity: the hypotheses of C02_history_succeeds_from_fitness hold on the example run above
+   (16 organisms, fitness values 1 ... 16 in each of the three rounds, AgeSignificance 1) *)
+Example C02_example_from_fitness_hypotheses :
+  wf ex_genome /\ innovs (s_env ex_s0) = [] /\ tape_ok (s_tape ex_s0) /\
+  0 < o_pop_size ex_opts <= 2 ^ 20 /\
+  (PrimFloat.leb 0x1p-32%float (o_age_sig ex_opts) = true /\ PrimFloat.leb (o_age_sig ex_opts) 0x1p+32%float = true) /\
+  acts_ok ex_opts /\ survivors_ok ex_opts /\ PrimFloat.eqb (o_compat_thresh ex_opts) 0 = false /\
+  (exists p s, new_population ex_opts ex_genome ex_s0 = Ok (p, s)) /\
+  Forall (fun st => Z.of_nat (length (fst st)) = o_pop_size ex_opts /\
+                    Forall (fun f => PrimFloat.leb 0%float f = true /\ PrimFloat.leb f 0x1p+900%float = true) (fst st) /\
+                    Exists (fun f => PrimFloat.leb 0x1p-900%float f = true) (fst st))
+         [(ex_fit, 1); (ex_fit, 2); (ex_fit, 3)].
+Proof.
+  destruct C02_example_succeeds_hypotheses as (A1 & A2 & A3 & A4 & A5 & A6 & A7 & p & s & E & _).
+  split; [exact A1|]. split; [exact A2|]. split; [exact A3|]. split; [vm_compute; split; [reflexivity|discriminate]|].
+  split; [split; vm_compute; reflexivity|]. split; [exact A5|]. split; [exact A6|]. split; [exact A7|].
+  split; [exists p, s; exact E|].
+  assert (H : Z.of_nat (length ex_fit) = o_pop_size ex_opts /\
+              Forall (fun f => PrimFloat.leb 0%float f = true /\ PrimFloat.leb f 0x1p+900%float = true) ex_fit /\
+              Exists (fun f => PrimFloat.leb 0x1p-900%float f = true) ex_fit).
+  { split; [reflexivity|]. split.
+    - apply Forall_forall. intros f Hf. cbn in Hf.
+      repeat (destruct Hf as [<-|Hf]; [split; vm_compute; reflexivity|]). destruct Hf.
+    - apply Exists_cons_hd. vm_compute. reflexivity. }
+  repeat constructor; exact H || apply H.
 Qed.
